@@ -107,6 +107,9 @@ type liveWorld struct {
 
 	tunSent int
 	kinds   map[string]int
+
+	connsAtStart int64 // udp.TesterConnsOpen() when the run began
+	routines     []any // the routines setting of each node (for messages)
 }
 
 func (w *liveWorld) now() time.Duration { return time.Since(w.start) }
@@ -120,9 +123,13 @@ func (w *liveWorld) overrides(i int, n int) m {
 	tp := w.tp
 	ov := m{
 		"listen":     m{"rebind_on_network_change": false},
-		"routines":   1,
-		"punchy":     m{"punch": true, "respond": tp.Chance(1, 2), "delay": "50ms", "respond_delay": "100ms"},
-		"handshakes": m{"try_interval": []string{"100ms", "50ms", "250ms"}[tp.Choose(3)], "retries": 4 + tp.Choose(6)},
+		// more routines than the test socket supports: Main opens that many sockets and clamps to one reader
+		"routines": []int{1, 1, 2, 3}[tp.Choose(4)],
+		"punchy":   m{"punch": true, "respond": tp.Chance(1, 2), "delay": "50ms", "respond_delay": "100ms"},
+		// small worker queues (default 64): full queues are where a sender that still holds a lock meets a worker
+		// that needs it
+		"handshakes": m{"try_interval": []string{"100ms", "50ms", "250ms"}[tp.Choose(3)], "retries": 4 + tp.Choose(6),
+			"query_buffer": []int{64, 1, 2, 4}[tp.Choose(4)], "trigger_buffer": []int{64, 1, 2, 4}[tp.Choose(4)]},
 		"timers":     m{"connection_alive_interval": 1 + tp.Choose(4), "pending_deletion_interval": 1 + tp.Choose(4)},
 	}
 	if tp.Chance(1, 3) {
@@ -434,7 +441,7 @@ func (w *liveWorld) phaseOf(nd *liveNode) string {
 
 func runLive(rc *sk.RunCtx, focus string) {
 	tp := rc.Tape
-	w := &liveWorld{rc: rc, tp: tp, focus: focus, start: time.Now(), blocked: map[[2]int]bool{}, kinds: map[string]int{}}
+	w := &liveWorld{rc: rc, tp: tp, focus: focus, start: time.Now(), blocked: map[[2]int]bool{}, kinds: map[string]int{}, connsAtStart: udp.TesterConnsOpen()}
 	n := 2 + tp.Choose(3)
 	w.useLH = n > 2 && tp.Chance(3, 4)
 	curve := cert.Curve_CURVE25519
@@ -465,7 +472,9 @@ func runLive(rc *sk.RunCtx, focus string) {
 	rc.Logf("live n=%d lh=%v curve=%v v=%v drop=%d dup=%d long=%d blocked=%d horizon=%v focus=%s", n, w.useLH, curve, cv, w.dropPct, w.dupPct, w.longPct, len(w.blocked), horizon, focus)
 
 	for i := 0; i < n; i++ {
-		w.nodes = append(w.nodes, w.newNode(i, 0, nil, nil, w.overrides(i, n)))
+		ov := w.overrides(i, n)
+		w.routines = append(w.routines, ov["routines"])
+		w.nodes = append(w.nodes, w.newNode(i, 0, nil, nil, ov))
 	}
 	lateStart := map[int]time.Duration{}
 	for _, nd := range w.nodes {
@@ -543,13 +552,31 @@ func runLive(rc *sk.RunCtx, focus string) {
 			}
 			switch kind {
 			case 0: // application traffic
+				if tp.Chance(1, 6) {
+					// a burst to hosts nobody has: many pending handshakes and lighthouse queries at once
+					cnt := 2 + tp.Choose(8)
+					pkts := make([][]byte, cnt)
+					for c := range pkts {
+						dst := netip.AddrFrom4([4]byte{10, 128, 0, byte(60 + tp.Choose(60))})
+						pkts[c] = BuildTunUDPPacket(dst, 80, nd.vpn, 80, []byte("to-nobody"))
+					}
+					ss = append(ss, &stim{name: fmt.Sprintf("tun:n%d>unknown", nd.idx), node: nd.idx, run: func() {
+						for _, p := range pkts {
+							ctl.InjectTunPacket(p)
+						}
+					}})
+					continue
+				}
 				if other == nd {
 					continue
 				}
 				cnt := 1 + tp.Choose(4)
 				pkts := make([][]byte, cnt)
 				for c := range pkts {
-					pkts[c] = BuildTunUDPPacket(other.vpn, uint16(1000+tp.Choose(1200)), nd.vpn, uint16(4000+tp.Choose(4)), []byte(fmt.Sprintf("payload-%d-%d", rounds, c)))
+					// a handful of symmetric port pairs: traffic i->j and j->i belongs to the same tracked flow on both
+					// nodes, so the tun reader and the udp reader of one node work on one conntrack entry
+					ports := []uint16{53, 80, 443}
+					pkts[c] = BuildTunUDPPacket(other.vpn, ports[tp.Choose(3)], nd.vpn, ports[tp.Choose(3)], []byte(fmt.Sprintf("payload-%d-%d", rounds, c)))
 				}
 				w.tunSent += cnt
 				ss = append(ss, &stim{name: fmt.Sprintf("tun:n%d>n%d", nd.idx, other.idx), node: nd.idx, run: func() {
@@ -728,6 +755,8 @@ func runLive(rc *sk.RunCtx, focus string) {
 	if focus == "stop" && !rc.Failed() {
 		if left := bubbleGoroutines(); len(left) > 0 {
 			rc.Fail("leak:"+leakSite(left[0]), "%d goroutine(s) still exist after every node was stopped and 90 s passed; first:\n%s", len(left), trimBlock(left[0]))
+		} else if open := udp.TesterConnsOpen() - w.connsAtStart; open != 0 {
+			rc.Fail("socket-leak", "%d UDP socket(s) opened by the nodes of this run are still open after every node was stopped (routines settings %v)", open, w.routines)
 		}
 	}
 	delivered := 0
